@@ -1,5 +1,6 @@
 """C01 — every accepted metric reaches exactly the matching routes and destinations"""
 from . import tablegen as tg
+from . import common
 
 LEVEL_TEXT = ("Lean theorems routes_exact / sendAll_exact / sendFirst_exact / blacklisted_nowhere / invalid_nowhere over a model of "
               "Table.Dispatch and the route Dispatch loops written as the Go code is (loops with return/break, routed flag), for arbitrary "
@@ -45,7 +46,8 @@ def run(ctx):
                         "delivery inside a destination is C05-C07; kafka/pubsub/cloudwatch/grafanaNet routes only through their Match"]
     ctx.prepare()
     ctx.lean(["Crng.Props.C01"], ["Crng.Props.C01.routes_exact", "Crng.Props.C01.sendAll_exact", "Crng.Props.C01.sendFirst_exact",
-                                  "Crng.Props.C01.blacklisted_nowhere", "Crng.Props.C01.unroutable_iff", "Crng.Props.C01.outcome_partition"])
+                                  "Crng.Props.C01.blacklisted_nowhere", "Crng.Props.C01.unroutable_iff", "Crng.Props.C01.outcome_partition"],
+             ties=[common.CODE_TABLE, common.CODE_ROUTE, common.CODE_MATCHER])
     cs = cases(ctx, "t", ctx.scale(150, 3000), 25)
     ctx.stream("table", "table", cs, classify=classify, nontrivial=nontrivial, spec_exact=True, timeout=ctx.scale(600, 3000),
                removable=lambda l: l.startswith(("in ", "inm ", "aggin ")))
